@@ -538,7 +538,7 @@ example : reduce [Witness.a55] = [Witness.a55].map some ∧
 
 /-- `Wavefront.insert(out, weight)` in terms of what `reduce` returns (`gs`) -/
 theorem wfInsert_of_reduce (nsq : K → K) (data gs : List (Fld K)) (hred : reduce data = gs.map some) (out : Arr K) (w : K) :
-    wfInsert nsq data out w = some (gs.foldl (fun o g => insertArr g o w nsq) out) := by
+    wfInsert 1 nsq data out w = some (gs.foldl (fun o g => insertArr g o w nsq) out) := by
   rw [wfInsert_eq, hred]; clear hred
   induction gs generalizing out with
   | nil => rfl
@@ -546,9 +546,19 @@ theorem wfInsert_of_reduce (nsq : K → K) (data gs : List (Fld K)) (hred : redu
     rw [List.map_cons, List.foldl_cons, List.foldl_cons]
     exact ih _
 
+/-- **`Wavefront.insert` hands the caller's weight on to `field.insert`** (about the *generated* `Gen.insertWiring`, read off
+`wavefront.py:Wavefront.insert` on every run): the wiring passes `weight=weight`, so the result does not depend on
+`field.insert`'s own default weight (`one`, any value) — only on `w`. A source that drops `weight=weight` regenerates
+`weighted := false`; the model then inserts with the default and this statement (and `wavefront_insert_weight`, now stated
+for the default 1) fails. -/
+theorem wavefront_insert_uses_weight (one one' : K) (nsq : K → K) (data : List (Fld K)) (out : Arr K) (w : K) :
+    Gen.insertWiring.weighted = true ∧ wfInsert one nsq data out w = wfInsert one' nsq data out w := by
+  refine ⟨rfl, ?_⟩
+  rw [wfInsert_eq, wfInsert_eq]
+
 /-- when `wfInsert` returns, `reduce` returned fields only (it always does: `wavefront_insert_defined`) -/
 theorem wfInsert_some (nsq : K → K) (data : List (Fld K)) (out out' : Arr K) (w : K)
-    (h : wfInsert nsq data out w = some out') : ∃ gs : List (Fld K), reduce data = gs.map some := by
+    (h : wfInsert 1 nsq data out w = some out') : ∃ gs : List (Fld K), reduce data = gs.map some := by
   rw [wfInsert_eq] at h
   generalize reduce data = l at h
   have hnone : ∀ (l : List (Option (Fld K))), l.foldl (insertStep nsq w) none = none := by
@@ -573,7 +583,7 @@ theorem wfInsert_some (nsq : K → K) (data : List (Fld K)) (out out' : Arr K) (
 /-- **`Wavefront.insert` always returns** (C06 `reduce_defined`: since the repo fix of `_merge_shape` no merge of array
 fields can raise), for every collection of fields, target and weight -/
 theorem wavefront_insert_defined (nsq : K → K) (data : List (Fld K)) (out : Arr K) (w : K) :
-    ∃ out', wfInsert nsq data out w = some out' := by
+    ∃ out', wfInsert 1 nsq data out w = some out' := by
   obtain ⟨gs, hred⟩ := C06.reduce_defined data
   exact ⟨_, wfInsert_of_reduce nsq data gs hred out w⟩
 
@@ -588,7 +598,7 @@ that sample (`nsq z = |z^2|`, `nsq 0 = 0`), for any number of overlapping fields
 shape, any weight; the target's shape is unchanged. (Uses `reduce_total` and `reduce_pairwise_disjoint` of C06.) -/
 theorem wavefront_insert_weight (nsq : K → K) (h0 : nsq 0 = 0) (data : List (Fld K))
     (hpos : ∀ f ∈ data, 0 < f.arr.s0 ∧ 0 < f.arr.s1) (out out' : Arr K) (w : K)
-    (h : wfInsert nsq data out w = some out') :
+    (h : wfInsert 1 nsq data out w = some out') :
     out'.s0 = out.s0 ∧ out'.s1 = out.s1 ∧
       ∀ i j, 0 ≤ i ∧ i < out.s0 → 0 ≤ j ∧ j < out.s1 →
         out'.get i j = out.get i j + nsq (sumList data (fun f => f.emb (i - out.s0 / 2) (j - out.s1 / 2))) * w := by
@@ -613,7 +623,7 @@ theorem wavefront_insert_weight (nsq : K → K) (h0 : nsq 0 = 0) (data : List (F
 the target's shape whose every sample is the prior content plus `weight · |Σ fields|²` -/
 theorem wavefront_insert_weight_total (nsq : K → K) (h0 : nsq 0 = 0) (data : List (Fld K))
     (hpos : ∀ f ∈ data, 0 < f.arr.s0 ∧ 0 < f.arr.s1) (out : Arr K) (w : K) :
-    ∃ out', wfInsert nsq data out w = some out' ∧ out'.s0 = out.s0 ∧ out'.s1 = out.s1 ∧
+    ∃ out', wfInsert 1 nsq data out w = some out' ∧ out'.s0 = out.s0 ∧ out'.s1 = out.s1 ∧
       ∀ i j, 0 ≤ i ∧ i < out.s0 → 0 ≤ j ∧ j < out.s1 →
         out'.get i j = out.get i j + nsq (sumList data (fun f => f.emb (i - out.s0 / 2) (j - out.s1 / 2))) * w := by
   obtain ⟨out', h⟩ := wavefront_insert_defined nsq data out w
